@@ -436,6 +436,17 @@ static std::string run_cmd(const std::vector<std::string>& a) {
     if (c == "movector") { need(2); const int d = slot_of(a[1]), s = slot_of(a[2]); if (d < 0 || s < 0 || d == s) return "ERR"; std::unique_ptr<upa::url> nu(new upa::url(std::move(U(s)))); g_url[d] = std::move(nu); refresh_sp(d); refresh_sp(s); return "movector " + state(d) + " | " + state(s); }
     if (c == "safe_assign") { need(2); const int d = slot_of(a[1]), s = slot_of(a[2]); if (d < 0 || s < 0 || d == s) return "ERR"; U(d).safe_assign(std::move(U(s))); refresh_sp(d); refresh_sp(s); return "safe_assign " + state(d) + " | " + state(s); }
     if (c == "swap") { need(2); const int d = slot_of(a[1]), s = slot_of(a[2]); if (d < 0 || s < 0 || d == s) return "ERR"; U(d).swap(U(s)); refresh_sp(d); refresh_sp(s); return "swap " + state(d) + " | " + state(s); }
+    if (c == "reparse") {
+        // reparse <dst> <src> <base slot|->: parse the href of src (against base) into dst
+        need(3); const int d = slot_of(a[1]), s = slot_of(a[2]); if (d < 0 || s < 0 || d == s) return "ERR";
+        const int b = slot_of(a[3]);
+        const std::string href(U(s).href().data(), U(s).href().length());
+        const bool srcvalid = U(s).is_valid();
+        validation_errc r = b >= 0 ? U(d).parse(href, U(b)) : U(d).parse(href);
+        refresh_sp(d);
+        const bool same = srcvalid && r == validation_errc::ok && obs(U(d)) == obs(U(s)) && U(d) == U(s);
+        return std::string("reparse ") + (r == validation_errc::ok ? "ok" : "fail") + " same=" + (same ? "1" : "0") + " " + state(d);
+    }
     if (c == "equals") { need(3); const int d = slot_of(a[1]), s = slot_of(a[2]); if (d < 0 || s < 0) return "ERR"; const bool xf = a[3] == "1";
         std::ostringstream o; o << "equals " << (upa::equals(U(d), U(s), xf) ? 1 : 0) << " eq=" << ((U(d) == U(s)) ? 1 : 0); return o.str(); }
     // ---- params linked to a url
